@@ -9,7 +9,10 @@
 // Output: dump of the three registers after every step, steps joined by '|' (same format as the Lean
 // driver).  A std::vector shadow of every register is updated with the plain-sequence meaning of
 // each operation; "!shadow" is appended to a step whose real content differs from it.
+// All library objects of a program are destroyed before its line is emitted (registers are deleted at
+// the end of run_*; temporaries live inside one operation), so the ledger must report live=0.
 #include <new>
+#include "ledger.hpp"   // C16: with -DVERIF_LEDGER every line carries its allocation trace (" ##L … live=n")
 #include "common.hpp"
 #include "Array.hpp"
 #include "String.hpp"
